@@ -712,6 +712,19 @@ loop:
 					continue
 				}
 
+				// PRIORITY can be sent for a stream in any state, idle included,
+				// and changes none (RFC 7540 5.1, 6.3). There is nothing to keep
+				// for it: a stream object made here is never released, and a
+				// HEADERS frame that opens the stream later would find the
+				// leftover instead of a new stream.
+				if fr.Type() == FramePriority {
+					if fr.Body().(*Priority).Stream() == fr.Stream() {
+						sc.writeReset(fr.Stream(), ProtocolError)
+					}
+
+					continue
+				}
+
 				// if the client has more open streams than the maximum allowed OR
 				//   the connection is closing, then refuse the stream
 				if openStreams >= int(sc.st.maxStreams) || wasClosing {
